@@ -91,6 +91,17 @@ def r02c(model: Model, rr: RuleResult):
     else:
         rr.bad(tfi, mig[0], "a paint attribute is moved from <use> elements to the shared target without requiring that all uses carry the same value: "
                "other users of the target would change colour", construct=f"target.attrib[attr_name] = values[0] under {facts}")
+    gb = [c for c in calls_in(tfi) if norm(c.func) == "groupby"]
+    if len(gb) == 1 and isinstance(gb[0].args[0], ast.Name) and kwarg(gb[0], "key") is not None:
+        defs = tcfg.reaching(tcfg.node_for(gb[0]), gb[0].args[0].id)
+        k = norm(kwarg(gb[0], "key"))
+        if defs and all(isinstance(d.value, ast.Call) and norm(d.value.func) == "sorted" and kwarg(d.value, "key") is not None and norm(kwarg(d.value, "key")) == k for d in defs):
+            rr.ok(f"groupby(..., key={k}) runs over a sequence sorted by the same key (each target's uses form one group)")
+        else:
+            rr.bad(tfi, gb[0], f"groupby(..., key={k}) runs over a sequence that is not sorted by that key: uses of one target are split into several "
+                   f"groups and 'all uses agree' is evaluated on a part only", construct=f"groupby over unsorted {gb[0].args[0].id}")
+    else:
+        raise AnalysisError("_tidy_use_elements: groupby(use_els, key=...) not found")
     dup = [n for n in walk_body(tfi) if isinstance(n, ast.SetComp)]
     if dup and "attr_value == reused_el.attrib.get(attr_name)" in norm(dup[0]):
         rr.ok("a <use> attribute is dropped only when the target already has the same value")
